@@ -1,9 +1,9 @@
-\* C08 thorough: 4 blocks
+\* C08 thorough: 4 blocks, every target, re-apply / fork
 CONSTANTS
   Stores = {"s1", "s2"}
-  NK = 2  NV = 2  NTK = 1  MaxVer = 4  MaxWrites = 1  MaxViews = 1
+  NK = 2  NV = 1  NTK = 1  MaxVer = 4  MaxWrites = 1  MaxViews = 1
   IterBounds <- FullOnly
-  Features = {"rollback", "fork", "views", "close"}
+  Features = {"rollback", "fork", "views"}
   FirstBlockFixed = FALSE
   RecordHist = TRUE
 INIT Init
